@@ -34,6 +34,10 @@
 //!
 //! `parsefacts` → `Generated/ParseFacts.lean`: the decision tables and call
 //! skeletons of the parser; see `c06_parse.rs`.
+//!
+//! `tclistops` → `Generated/TcListOps.lean`: every operation of the type checker
+//! that is partial in the length of a list, with the evidence that the list is
+//! long enough; see `c06_tclists.rs`.
 use super::{Gen, Target};
 use crate::find;
 use quote::ToTokens;
@@ -41,12 +45,15 @@ use std::path::Path;
 
 #[path = "c06_parse.rs"]
 mod c06_parse;
+#[path = "c06_tclists.rs"]
+mod c06_tclists;
 
 pub const TARGETS: &[Target] = &[
     ("lextables", "LexTables", lextables as Gen),
     ("unifyfacts", "UnifyFacts", unifyfacts as Gen),
     ("reportslices", "ReportSlices", reportslices as Gen),
     ("parsefacts", "ParseFacts", c06_parse::parsefacts as Gen),
+    ("tclistops", "TcListOps", c06_tclists::tclistops as Gen),
 ];
 
 fn txt(t: &impl ToTokens) -> String {
